@@ -333,6 +333,31 @@ func c07Body(r *Run) {
 	}
 	r.Sim.Quiesce()
 	r.Logf("--- quiescent after traffic")
+	// as long as nobody closed the Pub/Sub, cancelling some subscriptions must leave the others working: every
+	// successful Publish reached every healthy subscription that existed when it was called, exactly once unless nacked
+	if len(w.closeInv) == 0 {
+		for _, p := range w.pubs {
+			if !p.returned || p.err != nil {
+				continue
+			}
+			for _, s := range w.subs {
+				if !s.subscribed || s.topic != p.topic || s.retEv > p.invEv || s.cancelled || s.stopped || s.holding || s.closedSeen {
+					continue
+				}
+				n := 0
+				for _, u := range s.received {
+					if u == p.uuid {
+						n++
+					}
+				}
+				if n == 0 {
+					r.Fail("C07.R6", "while another subscription was being cancelled a published message never reached a healthy subscription", "sub %d never received %s (published ev %d..%d)", s.id, p.uuid, p.invEv, p.retEv)
+				} else if n > 1 && s.nackEvery == 0 {
+					r.Fail("C07.R6", "while another subscription was being cancelled a healthy subscription received a message twice without nacking it", "sub %d received %s %d times", s.id, p.uuid, n)
+				}
+			}
+		}
+	}
 
 	// ---- phase 2: a cancelled subscription must not disturb the others (only while the Pub/Sub is open)
 	if len(w.closeInv) == 0 {
